@@ -17,7 +17,7 @@ DECIDING = ['c15:queries_measured', 'c15:envelope_points']
 BUDGET = 300_000_000
 SLACK = 500_000   # one-off costs (first load of a stub module) are not growth
 RULE = ('graph cases: a generated buffer (plus modules for import cycles) made of up to 8 cyclic '
-        'gadgets (16 edge kinds: assignment, call, unbounded call, inheritance via alias, '
+        'gadgets (22 kinds: assignment, call, unbounded call, (mutual) recursion under an unresolvable return annotation, inheritance via alias, '
         'self-inheritance, attribute, container, decorator, property, __getattr__, generator, '
         'lambda, closure, default, annotation, import cycle), up to 40 nodes, x every use x '
         '{infer, goto, help, complete, get_signatures, get_references}; each query runs under a '
